@@ -173,9 +173,6 @@ func Abbreviate(s string, n int) string {
 	if len(s) <= n {
 		return s
 	}
-	if n < 3 {
-		return ""
-	}
 	p := 0
 	n2 := 0
 	for i := range s {
@@ -187,8 +184,11 @@ func Abbreviate(s string, n int) string {
 		}
 		p++
 	}
-	if p < n {
+	if p <= n {
 		return s
+	}
+	if n < 3 {
+		return ""
 	}
 	if p = strings.LastIndexAny(s[:n2], spaces); p > 0 {
 		s = strings.TrimRight(s[:p], spaces)
